@@ -10,28 +10,45 @@
        (later duplicates win; the i-th value of the ordered root is keyed by compact(i)). *)
 From Common Require Import Bytes.
 From Trie Require Import Nibbles Node Encode Model Spec.
-From Scale Require Import Compact.
+From C10 Require Import ScaleCompact.
 From C10 Require Import Model Proofs.
 Local Open Scope N_scope.
 
-Theorem C10_root_spec : forall H version data, host_root H version data = spec_host_root H version data.
+(* FULL STATEMENT: forall H version data, host_root H version data = spec_host_root H version data
+   (and the same for the ordered root).  It is refuted when the final byte vector of the input is
+   truncated but not empty: pkg/scale's decodeBytes zero-fills the short read (known finding
+   bytes-overrun, shared with C12 and pinned by dot/rpc/modules TestSystemModule_AccountNextIndex):
+   C10_overrun_refuted.  Outside that guard — exactly the inputs on which the Go decoder and the
+   specification decoder differ — the statement is proved. *)
+Theorem C10_root_spec_partial : forall H version data,
+  guard_entries_overrun data = false -> host_root H version data = spec_host_root H version data.
 Proof. exact host_root_spec. Qed.
-Print Assumptions C10_root_spec.
+Print Assumptions C10_root_spec_partial.
 
-Theorem C10_ordered_root_spec : forall H version data,
+Theorem C10_ordered_root_spec_partial : forall H version data,
+  guard_values_overrun data = false ->
   host_ordered_root H version data = spec_host_ordered_root H version data.
 Proof. exact host_ordered_root_spec. Qed.
-Print Assumptions C10_ordered_root_spec.
+Print Assumptions C10_ordered_root_spec_partial.
 
 (* failure for an unknown version (2..255) and for undecodable input *)
 Theorem C10_failure : forall H v data,
   (2 <= v -> v < 256 -> host_root H v data = None /\ host_ordered_root H v data = None) /\
-  (dec_entries data = None -> host_root H v data = None) /\
-  (dec_values data = None -> host_ordered_root H v data = None).
+  (guard_entries_overrun data = false -> dec_entries data = None -> host_root H v data = None) /\
+  (guard_values_overrun data = false -> dec_values data = None -> host_ordered_root H v data = None).
 Proof.
-  intros H v data. split; [exact (unknown_version_fails H v data)|exact (undecodable_fails H v data)].
+  intros H v data. split; [exact (unknown_version_fails H v data)|].
+  destruct (undecodable_fails H v data) as (_ & _ & A & B). split; assumption.
 Qed.
 Print Assumptions C10_failure.
+
+Theorem C10_overrun_refuted : forall H,
+  (exists data, host_root H 0 data <> spec_host_root H 0 data) /\
+  (exists data, host_ordered_root H 0 data <> spec_host_ordered_root H 0 data).
+Proof.
+  intros H. split; [exists w_overrun; exact (overrun_refuted H)|exists w_overrun_ordered; exact (overrun_ordered_refuted H)].
+Qed.
+Print Assumptions C10_overrun_refuted.
 
 (* every entry list is decodable from its SCALE encoding (whatever follows it), so the functions
    return the spec root for every entry list, with duplicates and empty values *)
@@ -43,19 +60,23 @@ Theorem C10_total_on_encodings : forall H ver es vs r,
   host_ordered_root H (match ver with V0 => 0 | V1 => 1 end) (enc_values vs ++ r)
     = Some (spec_root_bytes H ver (bm_of_list (index_entries 0 vs))).
 Proof.
-  intros H ver es vs r S1 F1 S2 F2. rewrite host_root_spec, host_ordered_root_spec.
-  unfold spec_host_root, spec_host_ordered_root.
-  rewrite (dec_enc_entries es r S1 F1), (dec_enc_values vs r S2 F2). destruct ver; split; reflexivity.
+  intros H ver es vs r S1 F1 S2 F2.
+  pose proof (dec_enc_entries es r S1 F1) as D1. pose proof (dec_enc_values vs r S2 F2) as D2.
+  rewrite host_root_spec by (unfold guard_entries_overrun; now rewrite D1).
+  rewrite host_ordered_root_spec by (unfold guard_values_overrun; now rewrite D2).
+  unfold spec_host_root, spec_host_ordered_root. rewrite D1, D2. destruct ver; split; reflexivity.
 Qed.
 Print Assumptions C10_total_on_encodings.
 
 (* non-vacuity: duplicates (the later value wins), an empty value, index keys crossing the
    one-byte compact mode, an unknown version, a truncated input *)
 Example C10_nonvacuous :
-  let es := [([n2b 1], [n2b 170]); ([n2b 1; n2b 2], []); ([n2b 1], [n2b 187])] in
+  let es := [([n2b 1], [n2b 170]); ([n2b 1; n2b 2], []); ([n2b 1], [n2b 187; n2b 188])] in
   dec_entries (enc_entries es) = Some es /\
-  bm_of_list es = [([n2b 1], [n2b 187]); ([n2b 1; n2b 2], [])] /\
+  bm_of_list es = [([n2b 1], [n2b 187; n2b 188]); ([n2b 1; n2b 2], [])] /\
   dec_entries (removelast (enc_entries es)) = None /\
+  guard_entries_overrun (removelast (enc_entries es)) = true /\
+  guard_entries_overrun (removelast (removelast (enc_entries es))) = false /\
   parse_version 2 = None /\ parse_version 1 = Some V1 /\
   fst (nth 64 (index_entries 0 (repeat [n2b 7] 70)) ([], [])) = [n2b 1; n2b 1].
 Proof. vm_compute. repeat split; reflexivity. Qed.
